@@ -80,6 +80,11 @@ pub fn class_pred(id: usize) -> impl Fn(char) -> bool + Copy {
         1 => c == ' ' || c == '\t' || c == '\r' || c == '\n',
         2 => true,
         3 => (c as u32) >= 128,
+        // predicates that tell the two halves of a CRLF apart
+        4 => c != '\n',
+        5 => c != '\r',
+        6 => c == '\r' || c == 'a',
+        7 => c == '\n' || c == '\t',
         _ => false,
     }
 }
@@ -141,7 +146,7 @@ pub fn nav(out: &mut Out, tier: &Tier, rng: &mut Rng) {
                     if rng.chance(1, 8) && !pat.is_empty() {
                         pat.remove(0);
                     }
-                    nav_case(out, &text, le, tab, p, &pat, rng.below(4));
+                    nav_case(out, &text, le, tab, p, &pat, rng.below(8));
                 }
             }
         }
@@ -163,7 +168,7 @@ pub fn nav(out: &mut Out, tier: &Tier, rng: &mut Rng) {
             2 => pat.clear(),
             _ => {}
         }
-        nav_case(out, &text, le, tab, p, &pat, rng.below(4));
+        nav_case(out, &text, le, tab, p, &pat, rng.below(8));
     }
 }
 
